@@ -12,10 +12,19 @@ Session 3: times are exact rationals (whole numbers of 1/96000 s on both sides; 
 the end / 0 / beyond the end, `sync_ms` (dyadic and non-dyadic periods; the play request also exactly on a sync multiple),
 show files written with show tokens (key, value, nested value + time string, two tokens in one string in a list), plays
 with a missing / unknown token.
+Session 3b: one log and one model state per show-player *key*, every entry tagged with the RunningShow instance that caused
+it (show events are attributed to the instance and the request / timer callback that posted them); plays over an instance
+of the same key that still runs or still waits for its sync point - the same show config several times in a row, or a
+second show with another config under the same key -, without sync_ms (replaced at once) and with it (the replaced
+instance runs on until the replacement starts or is stopped: the deferred stop, chains of them), followed by pause /
+advance / step_back / resume / update / stop requests and the end of the mode that owns the show player, before and after
+the sync point.
 Oracle (model independent): effect start times follow the absolute schedule (exactly, in whole units), a synchronised
 start is on the sync grid, not in the past and at most one period away, every start posts `played`, every step has the
 token-substituted lights / colour / fade / step event, events once, nothing after stop, and at
-the end the lights equal those of a twin machine in which no show was ever played.
+the end the lights equal those of a twin machine in which no show was ever played; a replaced instance is stopped (clean-up
++ stopped event, once) in the very request / callback in which its replacement starts or is stopped, nothing else happens
+to an instance nobody addressed, and at the end no RunningShow ever created under a stopped key is still running.
 """
 from fractions import Fraction
 
@@ -29,9 +38,9 @@ LEAN_MODULES = ["MpfVerif.Props.C17"]
 PROPS_FILE = "MpfVerif/Props/C17.lean"
 GEN = []
 MANIFEST = {
-  "text": "Proof on a Lean model of RunningShow (mpf/assets/show.py) as driven by the show player, with exact rational times (integer numerators over one common denominator; the model never rounds: the driver refuses a unit that is too coarse for a speed, and kth_step_time_exact proves that for any rational speed num/den - 3, 3/10, 3/2 with 100 ms / 330 ms steps included - the k-th scheduled step starts at T with T*num = t0*num + (sum of the preceding durations)*den, the sum taken first and divided once): for every show (step durations incl. hold steps, speed, loop count, start step positive / negative from the end / 0 / beyond the end), every number of loops and every lateness of the loop's timer callbacks, the executed steps are a prefix of the absolute schedule anchored at the play time - or, with sync_ms, at the synchronised start time, which is proved to be a multiple of sync, strictly after the request, at most one period away and the least such multiple, nothing being played before it; for every sequence of play/stop/pause/resume/advance/step_back/update requests and timer firings a show instance posts played at most once (exactly once when it is played without sync_ms, with sync_ms exactly when it was started by its timer or by a request), stopped exactly once iff it ends up stopped, completed at most once and only in the stopping step (clean-up, stopped, the request's own events, completed - in this order), looped exactly once per consumed loop, nothing but pause acknowledgements after stopped; it never has more than one live timer (the one it can cancel), plays no step and keeps no timer once it is stopped or completed whatever requests arrive later, and has cleared its context in every player it used when it is stopped. The model is tied to the real show player / show controller / RunningShow / light player by a correspondence run on generated shows (dyadic and non-dyadic step times and speeds, sync_ms, start steps, hold steps, show files written with show tokens in keys, nested values, lists and time strings) and control sequences on every check, with a model-independent oracle on effect timestamps (exact Fractions, tolerance 1 us), the sync grid, events, token-substituted lights / colours / fades / step events and a twin machine without shows.",
-  "note": "Trusted: Lean kernel + {propext, Classical.choice, Quot.sound}; the hand-written model Model/Show.lean (validated only by differential runs); IEEE floats are outside the model: the implementation's float times are compared with the exact rational ones with a tolerance of 1 us, and a play request that falls (within float error) on a sync multiple is checked by the oracle only (start now or one period later are both accepted); token substitution has no Lean model (oracle only: every step's lights, colours, fade and step event after substitution; a missing token must refuse the play or leave nothing behind); a synchronised play over an instance that still runs (deferred stop of the replaced show), show queues / action queue / block_queue, show pools, replace_or_advance_show's keep-the-old-instance shortcuts and players other than lights/events are outside the model and not exercised; the clean-up of the light stacks themselves is checked by the oracle (twin machine) and by C09's model, not proved here.",
-  "technique": "Lean 4 theorems (invariants by induction over all request sequences; schedule as a prefix of the absolute schedule for all latenesses; exact rational schedule by divisibility; sync start as least multiple) on a hand model + differential correspondence with real shows + schedule/sync/token/clean-up oracle against a twin machine",
+  "text": "Proof on a Lean model of RunningShow (mpf/assets/show.py) as driven by the show player, with exact rational times (integer numerators over one common denominator; the model never rounds: the driver refuses a unit that is too coarse for a speed, and kth_step_time_exact proves that for any rational speed num/den - 3, 3/10, 3/2 with 100 ms / 330 ms steps included - the k-th scheduled step starts at T with T*num = t0*num + (sum of the preceding durations)*den, the sum taken first and divided once): for every show (step durations incl. hold steps, speed, loop count, start step positive / negative from the end / 0 / beyond the end), every number of loops and every lateness of the loop's timer callbacks, the executed steps are a prefix of the absolute schedule anchored at the play time - or, with sync_ms, at the synchronised start time, which is proved to be a multiple of sync, strictly after the request, at most one period away and the least such multiple, nothing being played before it; for every sequence of play/stop/pause/resume/advance/step_back/update requests and timer firings a show instance posts played at most once (exactly once when it is played without sync_ms, with sync_ms exactly when it was started by its timer or by a request), stopped exactly once iff it ends up stopped, completed at most once and only in the stopping step (clean-up, stopped, the request's own events, completed - in this order), looped exactly once per consumed loop, nothing but pause acknowledgements after stopped; it never has more than one live timer (the one it can cancel), plays no step and keeps no timer once it is stopped or completed whatever requests arrive later, and has cleared its context in every player it used when it is stopped. On top of it Model/ShowKey.lean models one show-player key with every instance ever created under it: a play over an instance that still runs replaces it - at once without sync_ms, and with sync_ms by a replacement that waits for its sync point and holds the deferred stop of the old instance (start_callback; chains of waiting replacements included); for every sequence of plays, key requests (stop = also the end of the owning mode, pause, resume, advance, step_back, update) and timer callbacks of any instance it is proved that as soon as a replacement has started OR has been stopped (also before it ever started, e.g. after a pause cancelled its sync timer) every older instance is stopped and its stopped event occurs exactly once in the key's trace (replaced_show_stopped_exactly_once), that after a stop request no instance of the key runs (key_stopped_nothing_runs), that every instance's projection of the trace has stopped / played / completed once each (instance_events_once), that an instance holding a deferred stop has neither started nor stopped and names the instance created just before it (replaces_previous), and that every stopped instance - replaced ones included - has a clean context and no timer (context_removed_all). The model is tied to the real show player / show controller / RunningShow / light player by a correspondence run on generated shows (dyadic and non-dyadic step times and speeds, sync_ms, start steps, hold steps, show files written with show tokens in keys, nested values, lists and time strings, one or two shows under one key, show player at machine level or in a mode) and control sequences on every check, with a model-independent oracle on effect timestamps (exact Fractions, tolerance 1 us), the sync grid, events per instance, deferred stops, token-substituted lights / colours / fades / step events and a twin machine without shows.",
+  "note": "Trusted: Lean kernel + {propext, Classical.choice, Quot.sound}; the hand-written model Model/Show.lean (validated only by differential runs); IEEE floats are outside the model: the implementation's float times are compared with the exact rational ones with a tolerance of 1 us, and a play request that falls (within float error) on a sync multiple is checked by the oracle only (start now or one period later are both accepted); token substitution has no Lean model (oracle only: every step's lights, colours, fade and step event after substitution; a missing token must refuse the play or leave nothing behind); show queues / action queue / block_queue, show pools, replace_or_advance_show's keep-the-old-instance shortcuts (never taken here: every play entry has events_when_played, so a play always replaces) and players other than lights/events are outside the model and not exercised; the order of same-instant timer callbacks of two instances of one key is taken from the run; the clean-up of the light stacks themselves is checked by the oracle (twin machine) and by C09's model, not proved here.",
+  "technique": "Lean 4 theorems (invariants by induction over all request sequences; schedule as a prefix of the absolute schedule for all latenesses; exact rational schedule by divisibility; sync start as least multiple; chain invariant and per-instance event ledger over the list of instances of a key) on a hand model + differential correspondence with real shows + schedule/sync/token/clean-up oracle against a twin machine",
   "translated": False,
  }
 RULE = ("a case = 1-2 generated show files (1-4 steps) + play settings + 3-12 control requests (pause, resume without pause, "
@@ -45,6 +54,11 @@ RULE = ("a case = 1-2 generated show files (1-4 steps) + play settings + 3-12 co
         "as update requests), 40% start steps from -1, -n, -n-1, 0, n+1, n+3, sync_ms from 0/125/250/500/1000/330/100, "
         "45% show files written with show tokens (light list as a key token, colours as value tokens, nested colour + fade "
         "time string, a step event with two tokens in one string inside a list), request gaps also odd multiples of 1/32 s.  "
+        "35% of the cases play over instances that still run or wait: sync_ms 125..1000/330/100 in 3 of 4 shows, in 60% "
+        "of the two-show cases show B is played under A's key, 30% of the requests for a live key are another play (same "
+        "show config again, or the other show), request gaps 0..24 units incl. odd ones (before and after the sync "
+        "point), 25% manual_advance; 20% of all cases have the show player in a mode and 60% of those end with the end "
+        "of the mode instead of stop requests.  "
         "A separate stream plays tokenised shows with a missing / an unknown token.  30% of the cases run with slow effects "
         "(late timers).  non-trivial = at least one control request lands while the show runs or the show loops/completes; "
         "distinct = canonical JSON of the case")
@@ -52,15 +66,14 @@ TRUSTED = [
     "modelled, not verified: asyncio call_at / TimerHandle.cancel, the event queue's FIFO order for show events, the show "
     "loader's duration computation (its result is asserted against the generator's durations, tolerance 1e-9 s), light_player's "
     "color/remove calls per step, show token substitution (checked end-to-end by the oracle only)",
-    "Model/Show.lean is hand-written; tied to mpf/assets/show.py, show_controller.py, show_player.py by correspondence on every run",
+    "Model/Show.lean and Model/ShowKey.lean are hand-written; tied to mpf/assets/show.py, show_controller.py, show_player.py by correspondence on every run",
     "IEEE doubles: implementation times are accepted within 1 us of the exact rational time (harness units()); the clock at a "
     "request instant may be up to one clock resolution before the grid instant when non-dyadic timers are pending",
 ]
 ASSUMPTIONS = ["all durations, sync periods and request instants are whole numbers of 1/96000 s and every duration/speed is too "
                "(checked by the Lean driver: bad-op otherwise)",
-               "a show is (re)played for a key only when the previous instance for that key is stopped or completed "
-               "(replace_or_advance_show's shortcuts for an unchanged running show and the deferred stop of a replaced show "
-               "under sync_ms are not exercised)",
+               "every play entry has events_when_played / events_when_stopped, so replace_or_advance_show always replaces a "
+               "running instance (its shortcuts for an unchanged running show are not exercised)",
                "token values contain no parentheses; a play request on an exact sync multiple is compared with the model only "
                "when clock and period are dyadic"]
 
@@ -162,19 +175,18 @@ def first_idx(start, total):
     return start - 1 if start > 0 else start % total if start < 0 else 0
 
 
-def config_yaml(case):
-    lf = case.get("light_fade", 0)
-    s = ""
-    per_light = ""
-    if lf and case.get("fade_style") == "default":
-        s += "light_settings:\n  default_fade_ms: %d\n" % lf
-    elif lf:
-        per_light = ", fade_ms: %d" % lf
-    s += "lights:\n  l1: {number: 1, subtype: led%s}\n  l2: {number: 2, subtype: led%s}\nshow_player:\n" % (per_light, per_light)
+def key_of(case, name):
+    """the show-player key a show is played under (default: its own; "key": "A" = the key of show A)"""
+    return case["shows"][name].get("key", name)
+
+
+def show_player_yaml(case):
+    s = "show_player:\n"
     for name, sh in sorted(case["shows"].items()):
         p = sh["play"]
+        key = key_of(case, name)
         s += "  play_%s:\n    sh%s:\n      key: k%s\n      speed: %s\n      loops: %d\n      start_step: %d\n" % (
-            name, name, name, p["speed"], p["loops"], p["start"])
+            name, name, key, p["speed"], p["loops"], p["start"])
         s += "      start_running: %s\n      manual_advance: %s\n      priority: %d\n" % (
             "true" if p["running"] else "false", "true" if p["manual"] else "false", p["prio"])
         if p.get("sync"):
@@ -186,16 +198,43 @@ def config_yaml(case):
         for e in EVS:
             s += "      events_when_%s: %s_%s\n" % (e, name, e)
         for a, act in ACTIONS.items():
-            s += "  %s_%s:\n    sh%s:\n      key: k%s\n      action: %s\n" % (a, name, name, name, act)
+            s += "  %s_%s:\n    sh%s:\n      key: k%s\n      action: %s\n" % (a, name, name, key, act)
         for sp in SPEEDS:
             s += "  speed%s_%s:\n    sh%s:\n      key: k%s\n      action: update\n      speed: %s\n" % (
-                sp.replace(".", "p"), name, name, name, sp)
+                sp.replace(".", "p"), name, name, key, sp)
     return s
 
 
-def gen_case(r):
+def config_yaml(case):
+    lf = case.get("light_fade", 0)
+    s = ""
+    per_light = ""
+    if lf and case.get("fade_style") == "default":
+        s += "light_settings:\n  default_fade_ms: %d\n" % lf
+    elif lf:
+        per_light = ", fade_ms: %d" % lf
+    s += "lights:\n  l1: {number: 1, subtype: led%s}\n  l2: {number: 2, subtype: led%s}\n" % (per_light, per_light)
+    if case.get("mode"):
+        # the show player lives in a mode: the end of the mode stops every show of its context (clear_context)
+        return s + "modes:\n  - m1\n"
+    return s + show_player_yaml(case)
+
+
+def mode_yaml(case):
+    return ("mode:\n  start_events: start_m1\n  stop_events: stop_m1\n  game_mode: false\n  priority: 100\n" +
+            show_player_yaml(case))
+
+
+SYNCS = [125, 250, 500, 1000, 330, 330, 100]
+
+
+def gen_case(r, over=None):
+    """over: None = 35% of the cases have plays over a still-running instance of the same key (replacement: at once, or -
+    with sync_ms - deferred to the new instance's sync point); False = never (the token-refusal stream)"""
     shows = {}
     ext = r.random() < 0.55
+    if over is None:
+        over = r.random() < 0.35
     # a non-zero light fade: every removal of a show's context then leaves a fade-out entry behind for that long
     light_fade = r.choice([0, 0, 0, 125, 250, 250, 500])
     for name in (["A", "B"] if r.random() < 0.5 or light_fade else ["A"]):
@@ -219,19 +258,37 @@ def gen_case(r):
             play["speed"] = r.choice(["1", "3", "0.3", "1.5", "3", "2", "4", "0.5"])
             if r.random() < 0.4:
                 play["start"] = r.choice([-1, -1, -n, -n - 1, 0, n + 1, n + 3])
-            play["sync"] = r.choice([0, 0, 0, 125, 250, 500, 1000, 330, 330, 100])
+            play["sync"] = r.choice([0, 0, 0] + SYNCS)
+        if over:
+            # replacements wait for their sync point in 3 of 4 shows; more endless shows (something to replace)
+            if r.random() < 0.75:
+                play["sync"] = r.choice(SYNCS)
+            else:
+                play["sync"] = 0
+            if r.random() < 0.5:
+                play["loops"] = -1
+            if r.random() < 0.25:
+                play["manual"] = True
         shows[name] = {"spec": spec, "play": play}
+    if over and len(shows) == 2 and r.random() < 0.6:
+        shows["B"]["key"] = "A"             # a different show (and show config) replaces A under A's key
+    case = {"shows": shows}
+    keyof = {name: key_of(case, name) for name in shows}
     ops = []
     alive = set()
     for name in shows:
         ops.append([r.choice([0, 0, 2, 4, 3, 5] if ext else [0, 0, 2, 4]), name, "play"])
-        alive.add(name)
-    for _ in range(r.randint(3, 12)):
+        alive.add(keyof[name])
+    for _ in range(r.randint(3, 12) + (3 if over else 0)):
         name = r.choice(sorted(shows))
         gap = r.choice([0, 2, 2, 4, 4, 6, 8, 8, 12, 16, 24, 28])
+        if over:
+            gap = r.choice([0, 1, 2, 2, 3, 4, 4, 6, 8, 8, 12, 16, 24])      # more instants before the sync point
         k = r.random()
-        if name not in alive:
+        if keyof[name] not in alive:
             act = "play" if k < 0.7 else r.choice(["resume", "advance", "back", "pause"])
+        elif over and r.random() < 0.3:
+            act = "play"                    # over the instance that still runs / still waits for its sync start
         elif k < 0.2:
             act = "pause"
         elif k < 0.45:
@@ -245,25 +302,30 @@ def gen_case(r):
         else:
             act = "stop"
         if act == "play":
-            alive.add(name)
+            alive.add(keyof[name])
         if act == "stop":
-            alive.discard(name)
+            alive.discard(keyof[name])
         ops.append([gap, name, act])
     n0 = len(ops)
     fu = light_fade * 32 // 1000         # the fade-out window in request-gap units (1/32 s)
-    for i, name in enumerate(sorted(shows)):
-        # the stops land inside each other's fade-out windows, at the same instant, or exactly at a window's end
-        gaps = [0, 2, 6, 40] if not fu or i == 0 else [0, 0, 1, 2, max(fu // 2, 1), max(fu - 1, 1), fu, fu + 2]
-        ops.append([r.choice(gaps), name, "stop"])
+    mode = r.random() < 0.2
+    if mode and r.random() < 0.6:
+        ops.append([r.choice([0, 2, 6, 40]), "*", "modeend"])      # the mode ends: every show of its show player is stopped
+    else:
+        for i, name in enumerate(sorted(shows)):
+            # the stops land inside each other's fade-out windows, at the same instant, or exactly at a window's end
+            gaps = [0, 2, 6, 40] if not fu or i == 0 else [0, 0, 1, 2, max(fu // 2, 1), max(fu - 1, 1), fu, fu + 2]
+            ops.append([r.choice(gaps), name, "stop"])
     for _ in range(r.randint(2, 4)):
         ops.append([r.choice([0, 2, 8]), r.choice(sorted(shows)), r.choice(["resume", "advance", "back", "pause", "speed2"])])
-    return {"shows": shows, "ops": ops, "slow": r.random() < 0.3, "bg": r.random() < 0.6, "tail": 64, "keep": len(ops) - n0,
-            "light_fade": light_fade, "fade_style": r.choice(["light", "default"])}
+    case.update({"ops": ops, "slow": r.random() < 0.3, "bg": r.random() < 0.6, "tail": 64, "keep": len(ops) - n0,
+                 "light_fade": light_fade, "fade_style": r.choice(["light", "default"]), "mode": mode})
+    return case
 
 
 def gen_token_refusal(r):
     """a play whose show_tokens miss a token of the show / carry one the show does not have, then ordinary requests"""
-    case = gen_case(r)
+    case = gen_case(r, over=False)
     for name, sh in case["shows"].items():
         sh["spec"].update({"tok": True, "tokmode": r.choice(["missing", "extra"])})
         sh["play"].update({"start": 1, "sync": 0})
@@ -297,49 +359,98 @@ class Run:
     def __init__(self, case, twin=False):
         self.case = case
         self.twin = twin
-        self.logs = {name: [] for name in case["shows"]}
+        self.keys = sorted({key_of(case, n) for n in case["shows"]})
+        self.logs = {k: [] for k in self.keys}          # one log per show-player key; entries carry the instance serial "i"
+        self.objs = {k: [] for k in self.keys}          # the RunningShow objects created under the key, in order
+        self.inst_show = {k: [] for k in self.keys}     # ... and the show each of them plays
         self.fail = []
-        self.ctx_of = {}        # show context ("show_3") -> show name
-        self.inst = {}          # show name -> current RunningShow
+        self.ctx_of = {}        # show context ("show_3") -> (key, instance serial)
+        self.pending_posts = {}  # event name -> (instance serial, segment) of the posts that are still in the event queue
+        self.nseg = {k: 0 for k in self.keys}           # number of heads (requests / timer callbacks) logged per key
         self.bumped = True
         self.refused = []
+
+    def head(self, key, entry):
+        """a request or a timer callback begins: what the instances do synchronously from now on, and the events they post
+        (which are handled later, possibly after the next timer callback of the same instant), belong to it"""
+        entry["seg"] = self.nseg[key]
+        self.nseg[key] += 1
+        self.logs[key].append(entry)
+
+    def note(self, key, entry, seg=None):
+        entry["seg"] = self.nseg[key] - 1 if seg is None else seg
+        self.logs[key].append(entry)
 
     def install(self):
         from mpf.assets.show import RunningShow
         from mpf.devices.light import Light
+        from mpf.core.events import EventManager
         run = self
-        for cls, attr in ((RunningShow, "_run_next_step"), (RunningShow, "_start_now"), (Light, "color"),
-                          (Light, "remove_from_stack_by_key")):
+        if not hasattr(EventManager, "_verif17_post"):
+            EventManager._verif17_post = EventManager.post
+
+        def ev_post(em, event, callback=None, **kwargs):
+            r = RunningShow._verif17_run
+            if r is not None and event.startswith("sev_"):
+                name = event.split("_")[1]
+                if name in r.case["shows"]:
+                    r.pending_posts.setdefault(event, []).append((None, r.nseg[key_of(r.case, name)] - 1))
+            return EventManager._verif17_post(em, event, callback, **kwargs)
+        EventManager.post = ev_post
+        for cls, attr in ((RunningShow, "_run_next_step"), (RunningShow, "_start_now"), (RunningShow, "_start_play"),
+                          (RunningShow, "_post_events"), (Light, "color"), (Light, "remove_from_stack_by_key")):
             if not hasattr(cls, "_verif17_" + attr):
                 setattr(cls, "_verif17_" + attr, getattr(cls, attr))
 
+        def start_play(show):
+            # runs at the end of RunningShow.__init__: a new instance exists
+            r = RunningShow._verif17_run
+            if r is not None and show.context not in r.ctx_of:
+                name = show.show.name[2:]
+                if name in r.case["shows"]:
+                    key = key_of(r.case, name)
+                    serial = len(r.objs[key])
+                    r.objs[key].append(show)
+                    r.inst_show[key].append(name)
+                    r.ctx_of[show.context] = (key, serial)
+                    holds = None
+                    cb = show.start_callback
+                    if cb is not None and getattr(cb, "__self__", None) is not None:
+                        holds = r.ctx_of.get(getattr(cb.__self__, "context", None), (None, None))[1]
+                    r.note(key, {"k": "new", "i": serial, "show": name, "holds": holds, "t": units(r.vm.now())})
+            return RunningShow._verif17__start_play(show)
+
         def run_next(show, post_events=None, pause_after_step=False):
             r = RunningShow._verif17_run
-            if r is not None:
-                name = show.show.name[2:]
-                if name in r.logs:
-                    r.ctx_of[show.context] = name
-                    r.inst[name] = show
-                    if post_events is None and not pause_after_step:
-                        r.logs[name].append({"k": "fire", "t": units(r.vm.now())})
-                    r.bumped = False
+            if r is not None and show.context in r.ctx_of:
+                key, i = r.ctx_of[show.context]
+                if post_events is None and not pause_after_step:
+                    r.head(key, {"k": "fire", "i": i, "t": units(r.vm.now())})
+                r.bumped = False
             return RunningShow._verif17__run_next_step(show, post_events, pause_after_step)
 
         def start_now(show):
             r = RunningShow._verif17_run
-            if r is not None and show.show_config.sync_ms and show._delay_handler is not None:
-                name = show.show.name[2:]
-                if name in r.logs:
-                    # the synchronised start: `_start_now` runs from its timer
-                    r.logs[name].append({"k": "fire", "t": units(r.vm.now()), "start": True})
+            if r is not None and show.show_config.sync_ms and show._delay_handler is not None and show.context in r.ctx_of:
+                # the synchronised start: `_start_now` runs from its timer
+                key, i = r.ctx_of[show.context]
+                r.head(key, {"k": "fire", "i": i, "t": units(r.vm.now()), "start": True})
             return RunningShow._verif17__start_now(show)
+
+        def post_events(show, events):
+            r = RunningShow._verif17_run
+            if r is not None and show.context in r.ctx_of:
+                key, i = r.ctx_of[show.context]
+                for ev in events:
+                    r.pending_posts.setdefault(ev, []).append((i, r.nseg[key] - 1))
+            return RunningShow._verif17__post_events(show, events)
 
         def color(light, color, fade_ms=None, priority=0, key=None, start_time=None):
             r = RunningShow._verif17_run
             if r is not None and key and key.split(".")[0] in r.ctx_of:
-                name = r.ctx_of[key.split(".")[0]]
-                r.logs[name].append({"k": "eff", "light": light.name, "color": tuple(color), "prio": priority, "fade": fade_ms,
-                                     "st": units(start_time) if start_time else None, "t": units(r.vm.now())})
+                k, i = r.ctx_of[key.split(".")[0]]
+                r.note(k, {"k": "eff", "i": i, "light": light.name, "color": tuple(color), "prio": priority, "fade": fade_ms,
+                           "st": units(start_time) if start_time else None, "t": units(r.vm.now())})
                 if r.case["slow"] and not r.bumped and not r.twin:
                     r.bumped = True
                     r.vm.tc.loop.advance_time(UNIT)      # a slow effect: everything after it runs late
@@ -348,29 +459,41 @@ class Run:
         def remove(light, key, fade_ms=None):
             r = RunningShow._verif17_run
             if r is not None and str(key).split(".")[0] in r.ctx_of:
-                r.logs[r.ctx_of[str(key).split(".")[0]]].append({"k": "rm", "light": light.name, "t": units(r.vm.now())})
+                k, i = r.ctx_of[str(key).split(".")[0]]
+                r.note(k, {"k": "rm", "i": i, "light": light.name, "t": units(r.vm.now())})
             return Light._verif17_remove_from_stack_by_key(light, key, fade_ms)
         RunningShow._run_next_step = run_next
         RunningShow._start_now = start_now
+        RunningShow._start_play = start_play
+        RunningShow._post_events = post_events
         Light.color = color
         Light.remove_from_stack_by_key = remove
         RunningShow._verif17_run = self
         for name in self.case["shows"]:
+            key = key_of(self.case, name)
             for e in EVS:
-                def h(_n=name, _e=e, **kwargs):
-                    run.logs[_n].append({"k": "ev", "e": _e, "t": units(run.vm.now())})
+                def h(_n=name, _k=key, _e=e, **kwargs):
+                    q = run.pending_posts.get("%s_%s" % (_n, _e))
+                    # the event queue is FIFO: the oldest post of this event that is still in the queue
+                    i, seg = q.pop(0) if q else (None, None)
+                    run.note(_k, {"k": "ev", "e": _e, "i": i, "show": _n, "t": units(run.vm.now())}, seg)
                 self.vm.machine.events.add_handler("%s_%s" % (name, e), h)
             for i in range(8):
-                def hs(_n=name, _i=i, **kwargs):
-                    run.logs[_n].append({"k": "sev", "i": _i, "t": units(run.vm.now())})
+                def hs(_n=name, _k=key, _i=i, **kwargs):
+                    q = run.pending_posts.get("sev_%s_%d" % (_n, _i))
+                    run.note(_k, {"k": "sev", "s": _i, "show": _n, "t": units(run.vm.now())}, q.pop(0)[1] if q else None)
                 self.vm.machine.events.add_handler("sev_%s_%d" % (name, i), hs)
 
     def uninstall(self):
         from mpf.assets.show import RunningShow
         from mpf.devices.light import Light
+        from mpf.core.events import EventManager
+        EventManager.post = EventManager._verif17_post
         RunningShow._verif17_run = None
         RunningShow._run_next_step = RunningShow._verif17__run_next_step
         RunningShow._start_now = RunningShow._verif17__start_now
+        RunningShow._start_play = RunningShow._verif17__start_play
+        RunningShow._post_events = RunningShow._verif17__post_events
         Light.color = Light._verif17_color
         Light.remove_from_stack_by_key = Light._verif17_remove_from_stack_by_key
 
@@ -387,11 +510,16 @@ class Run:
         case = self.case
         shows = {"sh" + n: show_yaml(n, sh["spec"]) for n, sh in case["shows"].items()}
         try:
-            self.vm = VMachine(config_yaml(case), shows=shows).start()
+            self.vm = VMachine(config_yaml(case), shows=shows, modes={"m1": mode_yaml(case)} if case.get("mode") else None).start()
         except BootError as e:
             raise InfraError("C17 machine does not boot: %s" % e)
         try:
             m = self.vm.machine
+            if case.get("mode"):
+                self.vm.post("start_m1")
+                self.vm.advance(0)
+                if not m.modes["m1"].active:
+                    raise InfraError("C17: the mode with the show player did not start")
             self.vm.align()
             self.vm.advance(1.0 - self.vm.now())
             # what the loader made of the show files
@@ -405,6 +533,7 @@ class Run:
             if case["bg"]:
                 m.lights["l1"].color((3, 3, 3), key="bg", priority=0, fade_ms=0)
                 m.lights["l2"].color((4, 4, 4), key="bg", priority=0, fade_ms=0)
+            ended = False       # the mode (and with it the show player's entries) is gone
             for gap, name, act in case["ops"]:
                 target = self.vm.now() + gap * 2 * UNIT
                 try:
@@ -412,10 +541,23 @@ class Run:
                         self.vm.advance(target - self.vm.now())
                 except Exception as e:  # noqa
                     self.fail.append(("crash-in-callback", {"error": repr(e)}))
+                if ended or (act == "modeend" and not case.get("mode")):
+                    continue
+                if act == "modeend":
+                    ended = True
+                    if not self.twin:
+                        for key in self.keys:
+                            self.head(key, {"k": "op", "act": "modeend", "t": units(self.vm.now()), "exact": True})
+                    try:
+                        self.vm.post("stop_m1")
+                        self.vm.advance(0)
+                    except Exception as e:  # noqa
+                        self.fail.append(("crash-modeend", {"error": repr(e)}))
+                    continue
                 if self.twin:
                     continue
-                self.logs[name].append({"k": "op", "act": act, "t": units(self.vm.now()),
-                                        "exact": (Fraction(self.vm.now()) * D).denominator == 1})
+                self.head(key_of(case, name), {"k": "op", "act": act, "show": name, "t": units(self.vm.now()),
+                                               "exact": (Fraction(self.vm.now()) * D).denominator == 1})
                 try:
                     ev = act.replace(".", "p") + "_" + name
                     self.vm.post(ev)
@@ -445,7 +587,7 @@ class Run:
                 probe[l]["mid_color"] = tuple(light.get_color())
                 probe[l]["mid_hw"] = [round(light.hw_drivers[c][0].current_brightness * 255, 6) for c in ("red", "green", "blue")]
             self.final["probe"] = probe
-            self.stopped = {n: bool(i._stopped) for n, i in self.inst.items()}
+            self.stopped = {k: "".join("S" if o._stopped else "R" for o in objs) for k, objs in self.objs.items()}
         finally:
             self.uninstall()
             self.vm.stop()
@@ -453,15 +595,18 @@ class Run:
 
 
 def segments(log):
-    """[(head, [entries])] where head is an op or fire entry"""
-    segs = []
+    """[(head, [entries])] where head is an op or fire entry; an entry belongs to the head during which it was caused (for a
+    show event: during which it was posted)"""
+    segs = [(e, []) for e in log if e["k"] in ("op", "fire")]
+    stray = []
     for e in log:
-        if e["k"] in ("op", "fire"):
-            segs.append((e, []))
-        elif segs:
-            segs[-1][1].append(e)
-        else:
-            segs.append(({"k": "none", "t": e["t"]}, [e]))
+        if e["k"] not in ("op", "fire"):
+            if 0 <= e["seg"] < len(segs):
+                segs[e["seg"]][1].append(e)
+            else:
+                stray.append(e)
+    if stray:
+        segs.insert(0, ({"k": "none", "t": stray[0]["t"]}, stray))
     return segs
 
 
@@ -472,76 +617,169 @@ def idx_of(name, color):
     return None
 
 
-def obs_of(name, spec, entries):
-    """canonical observation tokens of one segment (as the model prints them); None if the effects are inconsistent"""
+def obs_of(run, case, key, entries):
+    """canonical observation tokens of one segment as (instance serial, token) in the order they were observed - what the
+    instances did synchronously (steps, clean-ups) first, then the show events in the order they were posted; None if a
+    step's effects are inconsistent"""
     out = []
     i = 0
     while i < len(entries):
         e = entries[i]
         if e["k"] == "eff":
             grp = [e]
-            while i + 1 < len(entries) and entries[i + 1]["k"] == "eff":
+            while i + 1 < len(entries) and entries[i + 1]["k"] == "eff" and entries[i + 1]["i"] == e["i"]:
                 i += 1
                 grp.append(entries[i])
+            name = run.inst_show[key][e["i"]]
+            spec = case["shows"][name]["spec"]
             idxs = {idx_of(name, g["color"]) for g in grp}
             sts = {g["st"] for g in grp}
             if len(idxs) != 1 or len(sts) != 1 or sorted(g["light"] for g in grp) != sorted(LIGHTS[:spec["lights"]]):
                 return None
             if spec["fade"] and {g.get("fade", spec["fade"] * 125) for g in grp} != {spec["fade"] * 125}:
                 return None
-            out.append("e%s@%s" % (idxs.pop(), sts.pop()))
+            out.append((e["i"], "e%s@%s" % (idxs.pop(), sts.pop())))
         elif e["k"] == "rm":
-            while i + 1 < len(entries) and entries[i + 1]["k"] == "rm":
+            while i + 1 < len(entries) and entries[i + 1]["k"] == "rm" and entries[i + 1]["i"] == e["i"]:
                 i += 1
-            out.append("clr")
+            out.append((e["i"], "clr"))
         elif e["k"] == "ev":
-            out.append("E" + e["e"])
+            out.append((e["i"], "E" + e["e"]))
         i += 1
     return out
 
 
 def oracle(run, case):
-    """model-independent checks on the implementation's logs (all times in whole units of 1/D s, see `units`)"""
+    """model-independent checks on the implementation's logs (all times in whole units of 1/D s, see `units`), one
+    show-player key at a time.  Every RunningShow instance created under the key has its own bookkeeping; a request
+    addresses the instance in the dict (the newest one), a timer callback its own instance.  An instance played with
+    sync_ms over one that still runs *holds* the stop of that one until it starts or is stopped itself."""
     fails = []
-    for name, sh in case["shows"].items():
-        spec, play = sh["spec"], sh["play"]
-        durs = model_durs(spec)
-        total = len(durs)
-        sync = play.get("sync", 0) * MS
-        inst = None     # bookkeeping of the current play instance
-        for head, entries in segments(run.logs[name]):
-            obs = obs_of(name, spec, entries)
-            if obs is None:
-                fails.append(("step-effects-inconsistent", {"show": name, "at": head["t"], "entries": entries}))
+    stats = {}
+
+    def cnt(k):
+        stats[k] = stats.get(k, 0) + 1
+
+    for key in run.keys:
+        insts = []      # bookkeeping per instance serial
+        cur = None      # the instance in the show player's dict
+        cut = False
+
+        def chain(j):
+            """the instances whose stop is due when `j` is stopped: `j` itself and, transitively, what it still holds -
+            in the order they emit (deepest first)"""
+            out = []
+            while j is not None and not insts[j]["stopped"]:
+                out.append(j)
+                j = insts[j]["replaces"]
+            return out[::-1]
+
+        for head, entries in segments(run.logs[key]):
+            toks = obs_of(run, case, key, entries)
+            if toks is None:
+                fails.append(("step-effects-inconsistent", {"key": key, "at": head["t"], "entries": entries}))
+                cut = True
                 break
-            effs = [o for o in obs if o[0] == "e"]
-            evs = [o[1:] for o in obs if o[0] == "E"]
-            sevs = [e["i"] for e in entries if e["k"] == "sev"]
+            obs = ["%s:%s" % t for t in toks]
             act = head.get("act") if head["k"] == "op" else head["k"]
-            if act == "play" and name in run.refused:
-                if effs or evs:
-                    fails.append(("refused-play-has-effects", {"show": name, "at": head["t"], "obs": obs}))
-                    break
-                continue
+            new = [e for e in entries if e["k"] == "new"]
+            must_stop = []
+            a = cur
             if act == "play":
-                inst = {"count": {e: 0 for e in EVS}, "stopped": False, "prev": None, "speed": SPEEDS[play["speed"]],
-                        "loops": play["loops"], "paused": not play["running"], "pending": bool(sync), "t_play": head["t"],
-                        "played_steps": 0}
-            if inst is None:
-                if effs or evs:
-                    fails.append(("effect-without-show", {"show": name, "at": head["t"], "obs": obs}))
+                pname = head["show"]
+                if pname in run.refused:
+                    if [t for t in toks if t[0] is None or t[0] >= len(insts)]:
+                        fails.append(("refused-play-has-effects", {"show": pname, "at": head["t"], "obs": obs}))
+                        cut = True
+                        break
+                    insts += [{"stopped": True, "replaces": None, "count": {e: 0 for e in EVS}, "zombie": True, "name": pname,
+                               "played_steps": 0} for _ in new]
+                    continue
+                if len(new) != 1 or new[0]["i"] != len(insts):
+                    fails.append(("play-creates-no-instance", {"show": pname, "at": head["t"], "obs": obs}))
+                    cut = True
+                    break
+                shw = case["shows"][pname]
+                psync = shw["play"].get("sync", 0) * MS
+                holds = None
+                if cur is not None and not insts[cur]["stopped"]:
+                    if psync:
+                        holds = cur         # the replaced instance runs on until the new one starts (or is stopped)
+                        cnt("play_over_running_synced" + ("_waiting" if insts[cur]["pending"] else ""))
+                    else:
+                        must_stop = chain(cur)
+                        cnt("play_over_running_unsynced")
+                a = cur = len(insts)
+                insts.append({"count": {e: 0 for e in EVS}, "stopped": False, "prev": None, "speed": SPEEDS[shw["play"]["speed"]],
+                              "loops": shw["play"]["loops"], "paused": not shw["play"]["running"], "pending": bool(psync),
+                              "t_play": head["t"], "played_steps": 0, "replaces": holds, "name": pname, "spec": shw["spec"],
+                              "play": shw["play"], "durs": model_durs(shw["spec"]), "sync": psync})
+            elif act == "fire":
+                a = head["i"]
+            elif new:
+                fails.append(("instance-created-without-play", {"key": key, "at": head["t"], "obs": obs}))
+                cut = True
+                break
+            if act == "modeend":
+                act = "stop"
+            mine = [t for i, t in toks if i == a and a is not None]
+            others = {}
+            for i, t in toks:
+                if i != a or a is None:
+                    others.setdefault(i, []).append(t)
+            inst = insts[a] if a is not None and a < len(insts) else None
+            if inst is None or inst.get("zombie"):
+                if toks:
+                    fails.append(("effect-without-show", {"key": key, "at": head["t"], "obs": obs}))
                 continue
+            name, spec, play, durs, sync = inst["name"], inst["spec"], inst["play"], inst["durs"], inst["sync"]
+            total = len(durs)
+            effs = [o for o in mine if o[0] == "e"]
+            evs = [o[1:] for o in mine if o[0] == "E"]
+            sevs = [e["s"] for e in entries if e["k"] == "sev" and e["show"] == name]
             # a resume/advance/step_back request for a show that still waits for its synchronised start starts it now
             by_request = bool(inst["pending"] and act in ("resume", "advance", "back") and not inst["stopped"])
             starting = bool((act == "play" and not sync) or (act == "fire" and head.get("start")) or by_request)
+            # ... and whatever it replaces is stopped when it starts, or when it is stopped before it started
+            if inst["replaces"] is not None and (starting or "stopped" in evs):
+                must_stop = chain(inst["replaces"])
+                inst["replaces"] = None
+                cnt("deferred_stop_by_start" if starting else "deferred_stop_by_stop_before_start")
+                if len(must_stop) > 1:
+                    cnt("deferred_stop_chain_of_%d" % len(must_stop))
+                if not starting and inst.get("paused_waiting"):
+                    cnt("deferred_stop_after_pause_of_waiting_show")
+            for j in must_stop:
+                tj = others.pop(j, [])
+                if "Estopped" not in tj:
+                    fails.append(("replaced-show-not-stopped-with-its-replacement",
+                                  {"key": key, "at": head["t"], "request": act, "replaced_instance": j,
+                                   "show": insts[j]["name"], "obs": obs}))
+                    cut = True
+                    break
+                if [t for t in tj if t not in ("clr", "Estopped")] or tj.count("Estopped") > 1:
+                    fails.append(("replaced-show-does-more-than-stop", {"key": key, "at": head["t"], "instance": j, "obs": obs}))
+                    cut = True
+                    break
+                insts[j]["stopped"] = True
+                insts[j]["replaces"] = None
+                insts[j]["count"]["stopped"] += 1
+            if cut:
+                break
+            if others:
+                fails.append(("effect-from-an-instance-nobody-addressed", {"key": key, "at": head["t"], "request": act, "obs": obs}))
+                cut = True
+                break
             if by_request:
                 inst["pending"] = False
             if act == "play" and sync and (effs or evs):
                 fails.append(("sync-show-acts-before-its-start", {"show": name, "at": head["t"], "obs": obs}))
+                cut = True
                 break
             if act == "fire" and head.get("start"):
                 if not inst["pending"]:
                     fails.append(("sync-start-runs-twice-or-after-a-request", {"show": name, "at": head["t"], "obs": obs}))
+                    cut = True
                     break
                 inst["pending"] = False
                 inst["paused"] = not play["running"]
@@ -555,28 +793,36 @@ def oracle(run, case):
                 # a manual_advance show has no step timer at all: steps run on advance/step_back/resume requests only
                 fails.append(("update-resets-manual-advance" if inst.get("updated") else "manual-show-steps-by-itself",
                               {"show": name, "at": head["t"], "obs": obs}))
+                cut = True
                 break
             if act == "pause":
                 inst["paused"] = True
+                if inst["pending"]:
+                    inst["paused_waiting"] = True
             elif act in ("resume", "advance", "back"):
                 inst["paused"] = by_request and not play["running"]
             if act == "fire" and not head.get("start") and inst["paused"] and effs:
                 fails.append(("step-while-paused", {"show": name, "at": head["t"], "obs": obs}))
+                cut = True
                 break
-            if inst["stopped"] and (effs or "clr" in obs or [e for e in evs if e not in ("paused",)]):
+            if inst["stopped"] and (effs or "clr" in mine or [e for e in evs if e not in ("paused",)]):
                 fails.append(("effect-after-stop", {"show": name, "at": head["t"], "request": act, "obs": obs}))
+                cut = True
                 break
             if len(effs) > 1:
                 fails.append(("two-steps-in-one-run", {"show": name, "at": head["t"], "obs": obs}))
+                cut = True
                 break
             if starting and ("played" in evs) != True:      # noqa: E712
                 fails.append(("start-without-played-event", {"show": name, "at": head["t"], "obs": obs}))
+                cut = True
                 break
             if effs:
                 idx, st = [int(x) for x in effs[0][1:].split("@")]
-                tcall = [e["t"] for e in entries if e["k"] == "eff"][0]
+                tcall = [e["t"] for e in entries if e["k"] == "eff" and e["i"] == a][0]
                 if spec.get("tok") and sevs != [idx]:
                     fails.append(("step-event-token-wrong", {"show": name, "at": head["t"], "step": idx, "step_events": sevs}))
+                    cut = True
                     break
                 beyond = starting and first_idx(play["start"], total) is None
                 if starting and sync and not by_request:
@@ -585,10 +831,12 @@ def oracle(run, case):
                     if st % sync or not (inst["t_play"] <= st <= inst["t_play"] + sync) or not (st <= tcall <= st + LATE):
                         fails.append(("sync-start-off-grid", {"show": name, "play_at": inst["t_play"], "start_time": st,
                                                               "called_at": tcall, "sync_units": sync}))
+                        cut = True
                         break
                 if act in ("play", "resume", "advance", "back") or starting:
                     if st != head["t"] and not (starting and sync and not by_request):
                         fails.append(("step-start-time-not-request-time", {"show": name, "at": head["t"], "obs": obs}))
+                        cut = True
                         break
                     p = inst["prev"]
                     want_i = None if p is None else (p["idx"] - 1) % total if act == "back" else \
@@ -597,11 +845,13 @@ def oracle(run, case):
                         want_i = 0 if beyond else first_idx(play["start"], total)
                     if want_i is not None and idx != want_i:
                         fails.append(("request-plays-wrong-step", {"show": name, "request": act, "step": idx, "want_step": want_i}))
+                        cut = True
                         break
                 elif act == "fire":
                     p = inst["prev"]
                     if p is None or durs[p["idx"]] == 0:
                         fails.append(("step-timer-without-a-timed-step-before", {"show": name, "at": head["t"], "obs": obs}))
+                        cut = True
                         break
                     # exact rational schedule: previous start + duration / speed (a whole number of units by construction)
                     q = Fraction(durs[p["idx"]] * p["speed"][1], p["speed"][0])
@@ -613,12 +863,14 @@ def oracle(run, case):
                         fails.append(("step-off-schedule", {"show": name, "step": idx, "start_time": st, "called_at": tcall,
                                                             "want_step": want_i, "want_time": want_t, "slow_effects": case["slow"],
                                                             "units_per_s": D}))
+                        cut = True
                         break
                 p = inst["prev"]
                 wrapped = (p is not None and idx == 0 and p["idx"] == total - 1 and act in ("fire", "advance", "resume")
                            and not starting) or beyond
                 if wrapped != ("looped" in evs):
                     fails.append(("looped-event-wrong", {"show": name, "at": head["t"], "obs": obs, "wrapped": wrapped}))
+                    cut = True
                     break
                 inst["prev"] = {"idx": idx, "st": st, "speed": inst["speed"]}
                 inst["played_steps"] += 1
@@ -627,35 +879,42 @@ def oracle(run, case):
             c = inst["count"]
             if c["played"] > 1 or c["stopped"] > 1 or c["completed"] > 1 or c["completed"] > c["stopped"]:
                 fails.append(("event-more-than-once", {"show": name, "at": head["t"], "counts": c}))
+                cut = True
                 break
-        if any(d.get("show") == name for _, d in fails):
-            continue        # the walk over this show's log was cut short by the failure above
-        if inst is not None and not inst["stopped"]:
-            fails.append(("not-stopped-at-end", {"show": name}))
-        elif inst is not None:
+        if cut:
+            continue        # the walk over this key's log was cut short by the failure above
+        for j, inst in enumerate(insts):
+            if inst.get("zombie"):
+                continue
+            if not inst["stopped"]:
+                fails.append(("not-stopped-at-end", {"show": inst["name"], "instance": j, "key": key,
+                                                     "was_replaced": j != len(insts) - 1}))
+                continue
             c = inst["count"]
             # played exactly once iff the instance ever played a step or completed (a synchronised show that is stopped
             # before its start never started: no played event)
             want_played = 1 if (inst["played_steps"] or c["completed"]) else 0
             if c["stopped"] != 1 or c["played"] != want_played:
-                fails.append(("event-count-at-end", {"show": name, "counts": c}))
+                fails.append(("event-count-at-end", {"show": inst["name"], "instance": j, "counts": c}))
+    run.stats = stats
     return fails
 
 
-def to_model_lines(name, sh, log):
-    spec, play = sh["spec"], sh["play"]
-    durs = model_durs(spec)
+def to_model_lines(run, case, key):
     lines = []
-    for head, entries in segments(log):
-        obs = obs_of(name, spec, entries)
+    for head, entries in segments(run.logs[key]):
+        toks = obs_of(run, case, key, entries)
+        obs = None if toks is None else ["%s:%s" % t for t in toks]
         if head["k"] == "none":
             lines.append((None, obs, head))
             continue
         if head["k"] == "fire":
-            line = "fire %d" % head["t"]
+            line = "fire %d %d" % (head["i"], head["t"])
         else:
             act = head["act"]
             if act == "play":
+                shw = case["shows"][head["show"]]
+                spec, play = shw["spec"], shw["play"]
                 num, den = SPEEDS[play["speed"]]
                 sync = play.get("sync", 0)
                 if sync and head["t"] % (sync * MS) == 0 and not (sync in DYADIC_SYNC and head.get("exact")):
@@ -666,28 +925,36 @@ def to_model_lines(name, sh, log):
                     return None
                 line = "play %d %d %s %d %d %d %d %d %s" % (num, den, "inf" if play["loops"] < 0 else play["loops"], play["start"],
                                                            1 if play["running"] else 0, 1 if play["manual"] else 0, sync * MS,
-                                                           head["t"], " ".join(str(d) for d in durs))
+                                                           head["t"], " ".join(str(d) for d in model_durs(spec)))
             elif act.startswith("speed"):
                 num, den = SPEEDS[act[5:]]
                 line = "speed %d %d %d" % (num, den, head["t"])
+            elif act == "modeend":
+                line = "stop %d" % head["t"]        # clear_context: every instance in the dict is stopped, the dict is reset
             else:
                 line = "%s %d" % (act, head["t"])
         lines.append((line, obs, head))
     return lines
 
 
+def model_obs(ans):
+    """the model's answer in the order the implementation is observed in: synchronous effects first, then the events"""
+    body = ans[1:].split("|")[0].split()
+    return [t for t in body if ":E" not in t] + [t for t in body if ":E" in t]
+
+
 def model_check(ctx, model, run, case):
-    for name, sh in sorted(case["shows"].items()):
+    for key in run.keys:
         if model.ask("reset") != "ok":
             raise InfraError("model reset failed")
-        if name in run.refused:
+        if any(key_of(case, n) == key for n in run.refused):
             continue
-        lines = to_model_lines(name, sh, run.logs[name])
+        lines = to_model_lines(run, case, key)
         if lines is None:
             ctx.count("sync_float_coincidence_not_compared")
             continue
         for line, obs, head in lines:
-            what = {"show": name, "at": head["t"], "line": line}
+            what = {"key": key, "at": head["t"], "line": line}
             if line is None:
                 ctx.compare(dict(case, **what), obs, "no request or timer")
                 return
@@ -695,13 +962,12 @@ def model_check(ctx, model, run, case):
             if not ans.startswith("o"):
                 ctx.compare(dict(case, **what), obs, ans)
                 return
-            body = ans[1:].split("|")[0].split()
-            if not ctx.compare(dict(case, **what), obs, body):
+            if not ctx.compare(dict(case, **what), obs, model_obs(ans)):
                 return
-        # final stopped flag
+        # final stopped flags of every instance ever created under the key
         ans = model.ask("pause %d" % run.end)
-        if ans.startswith("o") and name in run.stopped:
-            ctx.compare(dict(case, show=name, what="stopped flag at the end"), "S" if run.stopped[name] else "R", ans.split()[-1])
+        if ans.startswith("o"):
+            ctx.compare(dict(case, key=key, what="stopped flags of all instances at the end"), run.stopped[key], ans.split("|")[-1])
 
 
 def probes_agree(a, b):
@@ -724,6 +990,11 @@ def execute_case(case):
     if OFFGRID:
         run.fail.append(("time-off-exact-rational-schedule", {"times": OFFGRID[:5], "tolerance_s": float(TOL)}))
     run.fail += oracle(run, case)
+    for key, flags in sorted(run.stopped.items()):
+        if "R" in flags and not any(key_of(case, n) == key for n in run.refused):
+            # after the key was stopped (or its mode ended) no RunningShow ever created under it may still run
+            run.fail.append(("instance-still-running-at-end", {"key": key, "instances_oldest_first": flags,
+                                                               "shows": run.inst_show[key]}))
     twin = Run(case, twin=True).execute()
     if {k: v for k, v in run.final.items() if k != "probe"} != {k: v for k, v in twin.final.items() if k != "probe"}:
         run.fail.append(("lights-differ-from-twin-without-show", {"with_show": run.final, "twin": twin.final}))
@@ -743,20 +1014,7 @@ def report_failures(ctx, case, run):
         keep = case.get("keep", 0)
         head, mid, tail = case["ops"][:nplay], case["ops"][nplay:len(case["ops"]) - keep], case["ops"][len(case["ops"]) - keep:]
 
-        def disciplined(ops):
-            alive = set()
-            for _, name, act in ops:
-                if act == "play":
-                    if name in alive:
-                        return False
-                    alive.add(name)
-                elif act == "stop":
-                    alive.discard(name)
-            return True
-
         def fails(ops, _sig=sig):
-            if not disciplined(head + ops + tail):
-                return False
             r2 = execute_case(dict(case, ops=head + ops + tail))
             return any(s == _sig for s, _ in r2.fail)
         try:
@@ -776,13 +1034,24 @@ def one_case(ctx, model, case):
     ctx.evaluated(case, is_nontrivial(case))
     for _, _, act in case["ops"]:
         ctx.count("req_" + (act if not act.startswith("speed") else "speed_update"))
-    for name in case["shows"]:
-        for e in run.logs[name]:
+    for key in run.keys:
+        for e in run.logs[key]:
             if e["k"] == "fire":
                 ctx.count("step_timer_fired")
             elif e["k"] == "ev":
                 ctx.count("ev_" + e["e"])
+            elif e["k"] == "new" and e["holds"] is not None:
+                ctx.count("instance_holds_deferred_stop")
+        if len(run.objs[key]) > 1:
+            ctx.count("key_with_several_instances")
+        if len(set(run.inst_show[key])) > 1:
+            ctx.count("key_played_with_different_shows")
+    for k, v in getattr(run, "stats", {}).items():
+        for _ in range(v):
+            ctx.count(k)
     ctx.count("cases_slow_effects" if case["slow"] else "cases_on_time")
+    if case.get("mode"):
+        ctx.count("cases_show_player_in_mode")
     for name, shw in case["shows"].items():
         spec, play = shw["spec"], shw["play"]
         if "ms" in spec:
@@ -803,8 +1072,8 @@ def one_case(ctx, model, case):
             ctx.count("play_start_running_false")
     for name in run.refused:
         ctx.count("play_refused_token")
-    for name in case["shows"]:
-        if any(e.get("start") for e in run.logs[name]):
+    for key in run.keys:
+        if any(e.get("start") for e in run.logs[key]):
             ctx.count("sync_start_timer_ran")
     if run.fail:
         report_failures(ctx, case, run)
@@ -882,12 +1151,52 @@ CORPUS3 = [
 ]
 
 
+def over(shows, ops, keep, **kw):
+    case = {"shows": shows, "ops": ops, "keep": keep, "slow": False, "bg": True, "tail": 64, "light_fade": 0, "fade_style": "light"}
+    case.update(kw)
+    return case
+
+
+def shk(key, *a, **kw):
+    d = sh(*a, **kw)
+    d["key"] = key
+    return d
+
+
+# session 3b: a play with sync_ms over an instance that still runs - the replaced instance runs on until the replacement
+# starts, or is stopped before it started (the deferred stop: `start_callback`)
+CORPUS4 = [
+    # the seeded change (stop skips the start callback once pause cancelled the sync timer): B over A, pause, stop
+    over({"A": sh([2, 2], sync=250), "B": shk("A", [2, 2], sync=250, prio=5)}, keep=2,
+         ops=[[0, "A", "play"], [0, "B", "play"], [12, "A", "pause"], [4, "A", "stop"], [2, "A", "resume"]]),
+    # ... with a manual_advance show advanced / stepped back before the sync point (the request starts it: A stops then)
+    over({"A": sh([2, 2], sync=250), "B": shk("A", [2, 2, 2], sync=500, manual=True)}, keep=2,
+         ops=[[0, "A", "play"], [0, "B", "play"], [11, "B", "play"], [2, "A", "advance"], [20, "A", "back"], [4, "A", "stop"],
+              [2, "A", "resume"]]),
+    # the same show config several times in a row: a chain of three deferred stops, released by one stop request
+    over({"A": sh([2, 2], sync=1000, lights=2)}, keep=2, slow=True,
+         ops=[[0, "A", "play"], [36, "A", "play"], [2, "A", "play"], [2, "A", "play"], [1, "A", "pause"], [3, "A", "stop"],
+              [2, "A", "advance"]]),
+    # ... released by the start of the newest one; the middle one's own sync timer runs first (it starts, then is replaced)
+    over({"A": sh([2, 2], sync=250, lights=2), "B": shk("A", None, ms=[100, 330], sync=1000, speed="3", tok=True)}, keep=3,
+         ops=[[0, "A", "play"], [12, "A", "play"], [1, "B", "play"], [40, "A", "speed2"], [0, "A", "play"], [2, "B", "play"],
+              [60, "A", "stop"], [0, "B", "stop"], [2, "A", "resume"]]),
+    # a play without sync_ms over a waiting replacement: both older instances stop at once; show player in a mode, mode end
+    over({"A": sh([2, 3], sync=500, loops=-1), "B": shk("A", [4], sync=0, prio=5, loops=2)}, keep=3, mode=True,
+         ops=[[0, "A", "play"], [20, "A", "play"], [2, "B", "play"], [6, "A", "play"], [3, "A", "pause"], [2, "*", "modeend"],
+              [2, "A", "resume"], [0, "B", "advance"]]),
+    over({"A": sh([2, 3], sync=500, loops=-1, running=False), "B": sh([1, 1], sync=125, prio=5)}, keep=2, mode=True, light_fade=250,
+         ops=[[0, "A", "play"], [0, "B", "play"], [20, "A", "play"], [2, "A", "resume"], [9, "B", "play"], [1, "B", "back"],
+              [30, "*", "modeend"], [2, "A", "resume"]]),
+]
+
+
 def run(ctx):
     model = None if getattr(ctx, "model_unavailable", False) else leanproc.LeanProc(ID)
     ctx.notes["time_units_per_second"] = D
     ctx.notes["time_tolerance_seconds"] = float(TOL)
     try:
-        for case in CORPUS + CORPUS3:
+        for case in CORPUS + CORPUS3 + CORPUS4:
             one_case(ctx, model, case)
         for case in MANUAL_UPDATE:
             one_case(ctx, None, case)
